@@ -95,10 +95,11 @@ theorem lookup_order_free (ops : List Op) (r2 : Registry) (hp : (run builtinRegi
   have kb : b.key = n := by simpa using qb
   rw [eq_of_key_eq _ (reachable_inv ops).keysNodup a ha b hb (by rw [ka, kb])]
 
-/-- T2: the only function of either package that writes a package-level variable is `registerProfileUnderName`
-    (regenerated fact) — registration is the only writer the model needs -/
+/-- T2: in either package, the only code that writes a package-level variable is reachable from `RegisterProfile`
+    and the package's `init` alone (regenerated fact; writers are named by the exported entry points that reach them,
+    so that renaming an internal helper changes nothing) — registration is the only writer the model needs -/
 theorem only_registration_writes :
-    Generated.Facts.globalWriters = [("psatoken", "registerProfileUnderName", "profilesRegister")] :=
+    Generated.Facts.globalWriters = [("psatoken", "RegisterProfile+init", "profilesRegister")] :=
   Tie.Facts.globalWriters
 
 -- non-vacuity: a history with a successful, a duplicate and a tag-less registration
